@@ -348,7 +348,6 @@ func BufferSnippet(b []byte) string {
 // ov lives inside the connection's read buffer, which may end in the middle of the body or of a
 // pipelined message that is still being received, so the bytes after the value must stay where
 // they are: the gap left by the removed bytes is blanked out instead of shifting the buffer.
-// (Blanks before the line end are ignored when the line is scanned again.)
 func normalizeHeaderValue(ov []byte) (nv []byte) {
 	nv = ov
 	length := len(ov)
@@ -369,13 +368,24 @@ func normalizeHeaderValue(ov []byte) (nv []byte) {
 		} else {
 			lineStart = false
 		}
+		if write == 0 && c == ' ' {
+			// blanks in front of the value are not part of it (and would be skipped after the
+			// colon when the line is scanned again)
+			continue
+		}
 		nv[write] = c
 		write++
 	}
-	for i := write; i < length; i++ {
+	// Right-align the compacted value and put the blanks in front of it: blanks between the
+	// colon and the value are skipped by the scanner, so scanning the same (or a longer) prefix of
+	// the header block again - a response or trailer block that arrives in several reads is scanned
+	// from its start each time - yields the same value, also when further continuation lines follow.
+	gap := length - write
+	copy(ov[gap:], ov[:write])
+	for i := 0; i < gap; i++ {
 		ov[i] = ' '
 	}
-	return nv[:write]
+	return ov[gap:]
 }
 
 func stripSpace(b []byte) []byte {
